@@ -124,4 +124,59 @@ def bcEquiv (k : BK) (lhs rhs : Expr) : Bool :=
   if bprod k l.1 = k.e then bprod k r.1 = k.e && (dedupe l.2).isPerm r.2
   else bprod k r.1 ≠ k.e && r.2.isEmpty        -- an absorbing literal: the node is that literal
 
+/-! ### `And` of equalities / disequalities of ONE expression with literals (the tail of boolean_and_simplifier)
+
+`x == 1 && x != 2 ⇒ x == 1`, `x == 1 && x == 3 ⇒ false`, `x == 1 && x != 1 ⇒ false`. -/
+/-- `(isEq, literal value modulo 2^w, w)` of an atom `target == c` / `c == target` / `target != c` / `c != target` -/
+def eqNeAtom (target : Expr) : Expr → Option (Bool × Nat × Nat)
+  | .app .eq [a, .bvv v w] => if a == target then some (true, v % 2 ^ w, w) else none
+  | .app .eq [.bvv v w, b] => if b == target then some (true, v % 2 ^ w, w) else none
+  | .app .ne [a, .bvv v w] => if a == target then some (false, v % 2 ^ w, w) else none
+  | .app .ne [.bvv v w, b] => if b == target then some (false, v % 2 ^ w, w) else none
+  | _ => none
+
+def atomsAll (target : Expr) : List Expr → Option (List (Bool × Nat × Nat))
+  | [] => some []
+  | t :: ts => match eqNeAtom target t, atomsAll target ts with
+    | some a, some as => some (a :: as)
+    | _, _ => none
+
+/-- the truth value of the conjunction of the atoms when the target has value `n` -/
+def atomsHold (n : Nat) : List (Bool × Nat × Nat) → Bool
+  | [] => true
+  | (isEq, c, _) :: as => (if isEq then n == c else n != c) && atomsHold n as
+
+/-- what the conjunction collapses to: `none` = always false, `some e` = exactly `target == e` -/
+def collapse (as : List (Bool × Nat × Nat)) : Option (Option Nat) :=
+  match (as.filter (·.1)).map (·.2.1) with
+  | [] => none                                   -- no equality: not handled
+  | e :: es =>
+    if es.all (· == e) && !((as.filter (!·.1)).map (·.2.1)).contains e then some (some e) else some none
+
+/-- is `lhs ⇒ rhs` this collapse of an `And` over one target expression `target` of width `w`? -/
+def andEqNe (target : Expr) (w : Nat) (lhs rhs : Expr) : Bool :=
+  match atomsAll target (flatB .and lhs) with
+  | none => false
+  | some as =>
+    decide (0 < w) && as.all (fun a => a.2.2 == w) &&
+    (match collapse as, rhs with
+     | some none, .boolv false => true
+     | some (some e), .app .eq [t, .bvv v w'] => t == target && w' == w && v % 2 ^ w == e
+     | _, _ => false)
+
+def guessTarget : Expr → Option (Expr × Nat)
+  | .app .eq [a, .bvv _ w] => some (a, w)
+  | .app .eq [.bvv _ w, b] => some (b, w)
+  | .app .ne [a, .bvv _ w] => some (a, w)
+  | .app .ne [.bvv _ w, b] => some (b, w)
+  | _ => none
+
+/-- `andEqNe` with the target read off the first operand -/
+def andEqNeAuto (lhs rhs : Expr) : Bool :=
+  match (flatB .and lhs).head? with
+  | some t => match guessTarget t with
+    | some (target, w) => andEqNe target w lhs rhs
+    | none => false
+  | none => false
+
 end Claripy.AST
